@@ -48,7 +48,8 @@ CLAIMED = {
               '(every parsed integrity field / stored CRC decides an Err), CHECKSUM-FEED, PER-UNIT-RESET (per-block/member '
               'accumulators re-initialised), WORKER-DRAIN (the MT reader hands out nothing after an error was stored), '
               'READER-STATE, FINALIZE-RESET, SCAN-TO-ZERO (a backward member scan may only succeed at position 0); GUARD-COMPARE also '
-              'requires comparisons with measured quantities to be two-sided.',
+              'requires comparisons with measured quantities to be two-sided; READ-ERR-LATCH (XZReader is not run again after an '
+              'error: a retry cannot resume behind a failed block check).',
               'that CRC/SHA detect a given corruption, LZMA-level structural errors inside the range-coded payload.'),
     'C05': _c('static: error-propagation taint + I/O count classification at every Read::read / Write::write site',
               'ERR-SWALLOW (whole crate) and IO-COUNT (W1 dropped write count, W2 transforming writer returning a partial count, '
@@ -56,7 +57,12 @@ CLAIMED = {
               'count), EOF-MEANS-END (a 0-byte read is a clean end only where the format allows one), INTERRUPT-LATCH / '
               'INTERRUPT-RETRY (Interrupted is never latched, never returned after bytes were handed out, and is retried in '
               'place where the decoder reads into its own buffer), FILL-LOOP (a count compared with a required length comes from '
-              'a fill loop), SINK-ERR-STICKY (see C09).',
+              'a fill loop), SINK-ERR-STICKY (see C09), ERR-SLOT (the stream range decoder parks a source error in a slot; the owner '
+              'empties the slot after every decoder run, before decoded bytes are released, and Some(error) becomes Err), '
+              'OWED-OUTPUT (BCJ2Reader returns Ok after an exhausted input only under uncompressed_size == 0 or with a non-zero '
+              'count; path conditions), MAGIC-PREFIX (an LZIP member probe says "trailing data" only after comparing the bytes it '
+              'got with the magic), FLUSH-FORWARD (a writer that forwards flush to its sink does so on every Ok path), '
+              'READ-ERR-LATCH (see C06; covers XZReader).',
               'that truncation is *detected* by the end-of-stream consistency checks (value dependent).'),
     'C06': _c('static: interval analysis with guard refinement across calls/fields; call-graph SCCs',
               'ALLOC-TAINT (every decoder-reachable allocation size bounded), INT-OVF (overflow asserts in loop-free scalar '
@@ -64,8 +70,10 @@ CLAIMED = {
               'self-recursion driven by input), READER-STATE (a chunk that needs props/dict reset and lacks it is an Err), BOUNDS '
               '(all 112 constant-length index checks in decoder-reachable code proven in range: intervals with loop-exit edge '
               'bounds, range iterators, and an inductive invariant for the coder state), POS-WRAP (32-bit position arithmetic of '
-              'the BCJ filters wraps), READ-ERR-LATCH (a reader owning LZ decoder state is never run again after an Err), '
-              'WINDOW-ALIGN (window never empty).',
+              'the BCJ filters wraps), READ-ERR-LATCH (a reader owning LZ decoder state, or swapping its own source, is never run '
+              'again after an Err: LZMAReader, LZMA2Reader, LZIPReader, XZReader), WINDOW-ALIGN (window never empty), RANGE-ORDER '
+              '(all 20 two-sided slice ranges on the decoding side are ordered by construction or by a guard), ERR-SLOT (see C05: '
+              'a failing source can no longer feed the LZ decoder zeros without end).',
               'index bounds inside the LZ window and BCJ2 state machine, loop termination, checked BCJ address arithmetic on data '
               'bytes (inside loops).'),
     'C07': _c('static: dominance rule on impl Read::read + I/O count classification',
@@ -78,7 +86,8 @@ CLAIMED = {
     'C08': _c('static: ordering/guard rules on the four MT pipelines + control-byte value sets',
               'SEQ-ORDER (hand-out only on seq == next, reorder map keyed by seq, one increment per hand-out/dispatch), CTRL-SETS '
               '(MT cutter cuts exactly at the ST reader\'s dictionary-reset values, same classes and header lengths), '
-              'FRESH-CODEC, MT-TERMINATOR, ERR-SWALLOW-MT, WORKER-DRAIN, STAGING-APPEND.',
+              'FRESH-CODEC, MT-TERMINATOR, ERR-SWALLOW-MT, WORKER-DRAIN, STAGING-APPEND, TRAILING-SKIP (the LZIP member scan '
+              'probes for the end of the last member, so trailing data is skipped as the single-threaded reader skips it).',
               'byte equality of outputs (needs C01), behaviour under interleavings beyond the ordering discipline.'),
     'C09': _c('static: all-paths rule on worker CFGs + dominance of error checks',
               'WORKER-NOTIFY (every path from a successful steal to an exit posts to the result channel), ERRCHK-BEFORE-BLOCK '
@@ -90,7 +99,8 @@ CLAIMED = {
               'progress of back-pressure loops, value relations between sequence counters.'),
     'C10': _c('static: lock-set analysis, condvar predicate discipline, call-graph effects',
               'CV-LOCK, CV-NOTIFY (every predicate write is followed by a notify on all paths), LOCK-SCOPE, DROP-CLOSE, SPAWN-BOUND '
-              'for the work queue and the four MT types; PANIC-WAKE.',
+              'for the work queue and the four MT types; PANIC-WAKE; ERR-SLOT (a worker decoding a member whose source ran dry '
+              'gets an error instead of zeros without end).',
               'termination of the codec work a worker does on one unit; std primitives behave as modelled.'),
     'C11': _c('static: encoder/decoder twin comparison on MIR provenance expressions; who-builds-what table; 32-bit wrap rule',
               'FILTER-INVERSE: in every BCJ converter the encoder and decoder definitions of a value are mirror images '
@@ -98,14 +108,16 @@ CLAIMED = {
               'writes its history at the same indices in both directions, subtracts resp. adds, and keeps the unfiltered byte; every '
               'BCJWriter/BCJReader constructor pair uses the same BCJFilter constructor with is_encoder = true / false. POS-WRAP: '
               'position arithmetic is modulo 2^32. TAIL-FORWARD: a filter writer never forwards bytes its filter has not '
-              'processed (reports the BCJWriter defect as a known finding).',
+              'processed (reports the BCJWriter defect as a known finding). SCAN-COVERAGE: every BCJ routine returns early for '
+              'len < W and enters its scan loop for len = W (the last instruction slot of a buffer is examined). CARRY-SOURCE: '
+              'BCJ2Reader copies the carried bytes of a split address from the position decode() left, never from the reset one.',
               'the numeric identity decode(encode(x)) = x itself, equality with the reference implementation\'s output, the BCJ2 '
               'decoder (no encoder twin in the crate), the RISC-V and ARM64 instruction repacking where the two directions are '
               'structurally different (reported as not decided), buffer-boundary handling inside BCJReader.'),
     'C12': _c('static: contradiction rule by value-set evaluation + control dependence',
               'BYTE-CONTRA (no success exit dead by contradictory byte tests), MULTISTREAM-GUARD, STREAM-RESET (padding % 4 on both '
               'the next-stream and the end-of-input exit; everything the first-stream initialiser stores is stored again per '
-              'stream), PER-UNIT-RESET, FILL-LOOP, SCAN-TO-ZERO.',
+              'stream), PER-UNIT-RESET, FILL-LOOP, SCAN-TO-ZERO, MAGIC-PREFIX, TRAILING-SKIP.',
               'alignment accounting across streams, arithmetic of the MT backward scan beyond its exit discipline.'),
     'C13': _c('static: call-graph effect analysis + data-flow from scheduling sources',
               'DET-EFFECT (no nondeterminism source / uninitialised memory reachable from the writers), SCHED-FLOW (no value '
